@@ -7,7 +7,10 @@
 package vp
 
 import (
+	"bytes"
+	"compress/gzip"
 	"encoding/json"
+	"io"
 	"fmt"
 	"math"
 	"math/big"
@@ -155,6 +158,19 @@ func Assert(cond bool, label string) {
 func Cover(label string)              {}
 func Known(id string, cond bool) bool { return cond }
 func Observe(label string, v any)     {}
+
+// Gunzip decompresses b natively; under symgo compress/gzip is an identity codec and so is this.
+func Gunzip(b []byte) []byte {
+	zr, err := gzip.NewReader(bytes.NewReader(b))
+	if err != nil {
+		return nil
+	}
+	out, err := io.ReadAll(zr)
+	if err != nil {
+		return nil
+	}
+	return out
+}
 
 // CutBefore: under symgo the function about to call callee returns early; natively a no-op.
 func CutBefore(callee string) {}
